@@ -20,7 +20,30 @@ Tie (this file): real `SquareLoss` objects on catalogue models (SIR, SEIR, SIR_n
    side whose d2f/dx2, d2f/dx dtheta, d2f/dtheta2 are derived here by sympy differentiation of `get_ode_eqn()` (no call of
    `get_grad_jacobian_eqn` / `get_grad_grad_eqn` / the compiled evaluators): a difference is a violation
    `forwardforward:rhs-not-second-order-equation`.
+ * `hessian(theta, full_output=True)` (the form `confidence_interval` uses) is judged against the SAME direct oracle as the
+   plain call, and the entries of the returned dictionary that the docstrings name (`JTJ`, `grad`, `H`, `resid`, `sens`)
+   against their own references (outer products / gradient / second-order part / weighted residuals / finite-difference
+   sensitivities of the reference solution); likewise `jtj(theta, full_output=True)`.
+ * SESSIONS on the one live loss object (STRENGTHEN_GUIDE families 1-5; `case["session"]`, fully determined by the case):
+   `jtj` / `hessian` (both output forms; theta as list / tuple / ndarray / numpy scalars / omitted) are called again and
+   again with the same theta after: writing into the matrix returned before (as `confidence_interval._profileH` does with
+   `H[i] = grad`, or a damping `A[diag] += lam`), moving the initial state through `costIV` / `residualIV` / `diff_lossIV` /
+   `sensitivityIV` (and back), the user changing a non-target parameter of the shared ode (and back), the user scrambling
+   the target parameters or the initial values of the shared ode (which the result must NOT depend on), an evaluation at
+   another theta, another loss object on the same ode evaluated in between, a `copy.deepcopy` of the loss object that is
+   evaluated and then moved elsewhere.  EVERY evaluation is judged against the direct oracle for the state current at
+   that moment (initial state, non-target parameters), all returned arrays are KEPT and compared at the end with the
+   copies taken when they were returned.  Arrays the caller handed in (theta, x0, y, t, weights) that come back changed are
+   TAGGED `input-modified:*` (a side effect alone is not a violation of C20); `sens_to_jtj` - the accumulator the property
+   names - is called twice on one caller-owned array and BOTH values are judged against the oracle (as found it scaled the
+   array in place, so the second value had the weights applied twice: repaired by `fix:` 06ea049).  In the Lean model `sensToJtj`, `hessian` and `odeAndForwardForward`
+   are pure functions of their explicit arguments (weights, the integrated sensitivity rows, residuals): there is no
+   instance state, so "a second call with the same arguments returns the same matrix, whatever happened in between" holds
+   by construction of the model (`C20.jtj_entry` / `C20.hessianH_entry` give every entry as a function of those arguments
+   alone); a memo keyed on less than (theta, initial state, the ode's other parameters), or a returned internal buffer,
+   is exactly what breaks that on the Python side.
 """
+import copy
 import json
 import random
 from fractions import Fraction
@@ -48,7 +71,16 @@ RULE = ("SquareLoss on SIR / SEIR / SIR_norm and on random bounded models (2-4 s
         "each of the three parameter terms of the second-order equation - tags term:state-param, term:param-param, term:param-squared - "
         "is non-zero for the target parameters), "
         "5-9 observation times, 1-2 observed states in any order, weights none/scalar/per-state/full, target_param subsets in any "
-        "order; a case is non-trivial when jtj has rank >= 1 and the second-order part of the true Hessian exceeds 1% of its scale")
+        "order; a case is non-trivial when jtj has rank >= 1 and the second-order part of the true Hessian exceeds 1% of its scale.  "
+        "Every case also carries constructor-argument forms (x0 list/tuple/float array/int list/int array, y and t as array or list, "
+        "theta0 list/array/tuple, weights as given/array/tuple/int) and a SESSION of 7-20 operations on the live loss object: "
+        "jtj / hessian in both output forms with theta as list/tuple/array/numpy scalars/omitted, re-asked after a write into the "
+        "returned matrix, after costIV/residualIV/diff_lossIV/sensitivityIV moved the initial state (and back), after a non-target "
+        "parameter of the shared ode changed (and back), after the ode's target parameters / initial values were scrambled, after "
+        "another theta, another loss object on the same ode, a deepcopy moved elsewhere; every evaluation is judged against the direct "
+        "oracle of the state current at that moment (tags session:agrees:* count them, session:evals=n per case), full_output "
+        "dictionaries entry by entry, kept results and caller arrays compared at the end; sens_to_jtj / sens_to_grad are called "
+        "twice on one caller-owned array")
 ASSUMPTIONS = ["integrating the sensitivity systems yields the derivatives of the solution (as in C13); scipy integrators within tolerance",
                "the finite-difference Hessian of the reference cost is accurate to ~1e-6 relative (Richardson on 1e-12 solutions); "
                "comparisons use 1e-3 relative",
@@ -151,6 +183,49 @@ def _obs_setup(r, states, params, case):
     return case
 
 
+EVAL_FNS = ["jtj", "jtj", "jtj_full", "hessian", "hessian_full"]
+THETA_FORMS = ["list", "tuple", "array", "npscalars", "none"]
+IV_ENTRIES = ["costIV", "costIV", "residualIV", "diff_lossIV", "sensitivityIV"]
+
+
+def _session_setup(r, c):
+    """the call history run on the live loss object after the first judgements, and the forms in which the constructor
+    arguments are handed over.  Every choice is recorded in the case: a replay reproduces the session exactly."""
+    states, params, tgt = c["states"], c["params"], c["target"]
+    x0 = c["x0"]
+    integral = all(float(v).is_integer() for v in x0)
+    if integral and c["kind"] == "catalogue":   # SIR / SEIR: keep the alternative initial state integral as well
+        k = r.randint(1, 4)
+        x0b = list(x0); x0b[0] = float(x0[0] - k); x0b[-2 if len(x0) > 2 else -1] += float(k)
+    else:
+        x0b = [round(v * r.uniform(0.7, 1.3), 3) for v in x0]
+    nontarget = [p for p in params if tgt is not None and p not in tgt]
+    alt = "nontarget" if (nontarget and r.random() < 0.4) else "x0"
+    ntp = None
+    if alt == "nontarget":
+        nm = r.choice(nontarget)
+        ntp = {"name": nm, "value": round(c["theta"][params.index(nm)] * r.choice([0.7, 0.8, 1.25, 1.4]), 6)}
+    ev = lambda fn=None: {"op": "eval", "fn": fn or r.choice(EVAL_FNS), "form": r.choice(THETA_FORMS)}
+    move = (lambda to: {"op": "iv", "entry": r.choice(IV_ENTRIES), "to": to}) if alt == "x0" else (lambda to: {"op": "ode_param", "to": to})
+    blocks = []
+    fn = r.choice(EVAL_FNS)                       # A: write into what was returned, ask again
+    blocks.append([ev(fn), {"op": "write", "how": r.choice(["row_grad", "damp", "fill"])}, ev(fn)])
+    fn = r.choice(EVAL_FNS)                       # B: move the state, ask again, move back, ask again
+    blocks.append([ev(fn), move("alt"), ev(fn), move("base"), ev(fn)])
+    for _ in range(r.randint(1, 2)):              # C: things the result must not depend on
+        fn = r.choice(EVAL_FNS)
+        blocks.append([ev(fn), {"op": r.choice(["ode_scramble", "ode_iv", "theta2", "other_loss", "deepcopy"]), "fn": r.choice(EVAL_FNS)}, ev(fn)])
+    if r.random() < 0.5:                          # B': moved state seen first by ANOTHER entry point than the one used before
+        blocks.append([ev("jtj"), move("alt"), ev("hessian" if r.random() < 0.5 else "jtj_full"), move("base"), ev("jtj")])
+    r.shuffle(blocks)
+    ops = [o for b in blocks for o in b]
+    forms = {"x0": r.choice(["list", "tuple", "array"] + (["int_list", "int_array"] if integral else [])),
+             "y": r.choice(["array", "array", "list"]), "t": r.choice(["array", "list"]),
+             "theta": r.choice(["list", "array", "tuple"]), "weights": r.choice(["asis", "asis", "array", "tuple", "int"])}
+    c["session"] = {"alt": alt, "x0b": x0b, "ntp": ntp, "ops": ops, "forms": forms}
+    return c
+
+
 def make_cases(rng, tier, budget):
     cases = []
     for i in range(budget["catalogue"]):
@@ -173,7 +248,7 @@ def make_cases(rng, tier, budget):
             if r.random() < 0.7:
                 tgt = sorted(tgt, key=params.index)
             c["target"] = tgt
-        cases.append(c)
+        cases.append(_session_setup(r, c))
     for kind, fn in (("additive", _additive_model), ("general", _general_model), ("products", _product_model)):
         for i in range(budget.get(kind, 0)):
             r = random.Random(rng.getrandbits(64))
@@ -181,7 +256,7 @@ def make_cases(rng, tier, budget):
             c = {"kind": kind, "spec": spec, "states": states, "params": params,
                  "theta": [r.randint(5, 60) / 100.0 for _ in params], "x0": [r.randint(5, 20) / 10.0 for _ in states],
                  "T": r.choice([1.0, 2.0])}
-            cases.append(_obs_setup(r, states, params, c))
+            cases.append(_session_setup(r, _obs_setup(r, states, params, c)))
     for i in range(budget["one_state"]):
         r = random.Random(rng.getrandbits(64))
         # x' = -a x^2 + b   or   x' = -a x^2 + a b  (the second has d2f/da db != 0)
@@ -192,7 +267,7 @@ def make_cases(rng, tier, budget):
                                   "eq": E.add(E.neg(E.mul(E.mul(E.var("a"), E.var("X")), E.var("X"))), src)}]}, "then": []}
         c = {"kind": "one_state", "spec": spec, "states": ["X"], "params": ["a", "b"], "theta": [r.randint(20, 60) / 100.0, r.randint(20, 60) / 100.0],
              "x0": [r.randint(5, 20) / 10.0], "T": 2.0}
-        cases.append(_obs_setup(r, ["X"], ["a", "b"], c))
+        cases.append(_session_setup(r, _obs_setup(r, ["X"], ["a", "b"], c)))
     return cases
 
 
@@ -316,6 +391,183 @@ def _sig(base, nS, case=None, p_=None):
     return s
 
 
+def _run_session(case, sess, ops, L, model, SquareLoss, cx, viol, tags):
+    ob, oalt, first_ok, th_arg, theta, x0, ts = cx["ob"], cx["oalt"], cx["first_ok"], cx["th_arg"], cx["theta"], cx["x0"], cx["ts"]
+    p_, nT, nS, tnames, check_output = cx["p_"], cx["nT"], cx["nS"], cx["tnames"], cx["check_output"]
+    x0b = [float(v) for v in sess["x0b"]]
+    th2 = [float(v) * 1.15 for v in th_arg]
+    seen = set(v["signature"] for v in viol)
+
+    def report(what, sig, detail):
+        if sig not in seen:                 # one report per signature and case
+            seen.add(sig)
+            viol.append({"what": what, "signature": sig, "detail": detail})
+
+    def theta_in(form, theta_is_base):
+        if form == "tuple":
+            return tuple(th_arg)
+        if form == "array":
+            return np.array(th_arg, dtype=float)
+        if form == "npscalars":
+            return [np.float64(v) for v in th_arg]
+        if form == "none" and theta_is_base:
+            return None
+        return list(th_arg)
+
+    keep = []        # [label, returned object, copy taken when it was returned (or after OUR write)]
+    live = []        # other loss objects / copies stay alive until the end
+
+    def call(obj_, fn, arg):
+        kw = {} if arg is None else {"theta": arg}
+        if fn.endswith("_full"):
+            return getattr(obj_, fn[:-5])(full_output=True, **kw)
+        return getattr(obj_, fn)(**kw), None
+
+    def evaluate(obj_, fn, form, orc, hist, theta_is_base, label):
+        fam = "hessian" if fn.startswith("hessian") else "jtj"
+        famsig = fam + (":full-output" if fn.endswith("_full") else "")
+        arg = theta_in(form, theta_is_base)
+        argc = None if arg is None else np.array(arg, dtype=float)
+        try:
+            M, out_ = call(obj_, fn, arg)
+        except Exception as exc:
+            report("%s raised %s: %s (%s)" % (fn, type(exc).__name__, str(exc)[:160], hist), "%s:raises:%s" % (famsig, hist), "theta form %s" % form)
+            return None
+        keep.append([label, M, np.array(M, dtype=float, copy=True)])
+        if out_ is not None:
+            for k in ("JTJ", "grad", "H"):
+                if isinstance(out_.get(k), np.ndarray):
+                    keep.append([label + "[%s]" % k, out_[k], np.array(out_[k], dtype=float, copy=True)])
+        if argc is not None and not np.array_equal(np.array(arg, dtype=float), argc):
+            tags.append("input-modified:theta")          # a side effect alone is not a violation of C20
+        if orc is None or not first_ok.get(fam, False) or (fam == "hessian" and orc.get("H") is None):
+            tags.append("session:not-judged:" + ("no-oracle" if orc is None or (fam == "hessian" and orc.get("H") is None) else "first-evaluation-already-reported"))
+            return M
+        Mf = np.asarray(M, float)
+        scaleJ_ = float(np.max(np.abs(orc["JTJ"]))) + 1e-300
+        tolJ_ = 1e-5 * scaleJ_ + 1e-10
+        ref, tol_ = orc["JTJ"], tolJ_
+        tolH_ = None
+        if fam == "hessian":
+            scaleH_ = max(float(np.max(np.abs(orc["H"]))), 2 * scaleJ_)
+            tolH_ = 1e-3 * scaleH_ + 1e-4 * (1.0 + orc["cost"])
+            ref, tol_ = orc["H"], tolH_
+        if Mf.shape != ref.shape or not close_arr(Mf, ref, 0, tol_):
+            report("%s(theta) called again with the same theta (%s; theta as %s) is not what the direct oracle gives for the CURRENT state of the "
+                   "loss object (initial state %s, parameters of the ode as they are now)" % (fn, hist, form, label.split("@")[-1]),
+                   "%s:value:%s" % (famsig, hist), (worst(Mf, ref) if Mf.shape == ref.shape else "shape %s" % (Mf.shape,)) + " ; " + label)
+        elif fam == "jtj" and not close_arr(Mf, Mf.T, 0, 1e-12 * scaleJ_ + 1e-300):
+            report("jtj not symmetric (%s)" % hist, "jtj:symmetry:" + hist, worst(Mf, Mf.T))
+        else:
+            tags.append("session:agrees:" + famsig)
+            if out_ is not None:
+                check_output(fam, out_, orc, ":" + hist, tolJ_, tolH_)
+        return M
+
+    cur = "base"                    # which state the loss object L is in
+    hist = "repeat"
+    theta_is_base = True
+    nev = 0
+    orc_of = lambda c_: ob if c_ == "base" else oalt
+    try:
+        for k, op in enumerate(ops):
+            kind = op["op"]
+            if kind == "eval":
+                nev += 1
+                evaluate(L, op["fn"], op["form"], orc_of(cur), hist, theta_is_base, "op%d:%s@%s" % (k, op["fn"], cur))
+                hist, theta_is_base = "repeat", True
+            elif kind == "write":
+                tgt_ = next((e for e in reversed(keep) if "[" not in e[0]), None)
+                if tgt_ is not None and isinstance(tgt_[1], np.ndarray) and tgt_[1].ndim == 2 and tgt_[1].flags.writeable:
+                    A = tgt_[1]
+                    if op["how"] == "row_grad":          # what confidence_interval._profileH does: H[i] = grad
+                        A[0] = np.asarray(ob["grad"], float)[:A.shape[1]] + 1.0
+                    elif op["how"] == "damp":            # Levenberg damping in place
+                        A[np.diag_indices(A.shape[0])] += 1.0 + float(np.max(np.abs(A)))
+                    else:
+                        A[...] = -7.0
+                    tgt_[2] = np.array(A, dtype=float, copy=True)
+                    hist = "after-write-into-returned-matrix"
+                    tags.append("session:write:" + op["how"])
+            elif kind == "iv":
+                to = op["to"]
+                arg = list(th_arg) + (x0b if to == "alt" else [float(v) for v in x0])
+                try:
+                    getattr(L, op["entry"])(arg)
+                    tags.append("session:iv:" + op["entry"])
+                except Exception as exc:
+                    tags.append("session:iv-entry-raises:%s:%s" % (op["entry"], type(exc).__name__))
+                    L.costIV(arg)
+                cur, hist, theta_is_base = to, ("after-iv-moved-initial-state" if to == "alt" else "after-iv-restored-initial-state"), True
+            elif kind == "ode_param":
+                to = op["to"]
+                nm = sess["ntp"]["name"]
+                model.parameters = {nm: (sess["ntp"]["value"] if to == "alt" else float(theta[case["params"].index(nm)]))}
+                cur, hist = to, ("after-non-target-parameter-changed" if to == "alt" else "after-non-target-parameter-restored")
+                tags.append("session:ode-param")
+            elif kind == "ode_scramble":
+                model.parameters = {nm: float(v) * 1.7 for nm, v in zip(tnames, th_arg)}
+                hist = "after-ode-target-parameters-scrambled"
+                tags.append("session:ode-scramble")
+            elif kind == "ode_iv":
+                model.initial_values = (list(x0b), 0.0)
+                hist = "after-ode-initial-values-changed"
+                tags.append("session:ode-iv")
+            elif kind == "theta2":
+                try:
+                    M2, _ = call(L, op["fn"], list(th2))
+                    keep.append(["op%d:%s@other-theta" % (k, op["fn"]), M2, np.array(M2, dtype=float, copy=True)])
+                except Exception as exc:
+                    tags.append("session:other-theta-raises:" + type(exc).__name__)
+                hist, theta_is_base = "after-evaluation-at-another-theta", False
+                tags.append("session:theta2")
+            elif kind == "other_loss":
+                kw = {"target_param": list(cx["tgt"])} if cx["tgt"] is not None else {}
+                try:
+                    L2 = SquareLoss(list(th_arg) if cx["tgt"] is not None else [float(v) for v in theta], model, list(x0b), 0.0, ts.copy(), cx["yarr"].copy(),
+                                    list(cx["obs"]) if p_ > 1 else cx["obs"][0], state_weight=cx["wraw"], **kw)
+                    live.append(L2)
+                    # the second object lives at the alternative initial state: judged when that is the oracle we have
+                    o2_ = oalt if (sess["alt"] == "x0" and cur == "base") else None
+                    if sess["alt"] == "nontarget" and cur == "alt":
+                        o2_ = None
+                    evaluate(L2, op["fn"], "list", o2_, "other-loss-object-on-the-same-ode", True, "op%d:%s@second-object" % (k, op["fn"]))
+                    tags.append("session:other-loss")
+                except Exception as exc:
+                    tags.append("session:other-loss-raises:" + type(exc).__name__)
+                hist = "after-other-loss-object-on-the-same-ode"
+            elif kind == "deepcopy":
+                try:
+                    Lc = copy.deepcopy(L)
+                except Exception as exc:
+                    tags.append("session:deepcopy-unsupported:" + type(exc).__name__)
+                    continue
+                live.append(Lc)
+                evaluate(Lc, op["fn"], "list", orc_of(cur), "on-deepcopy", True, "op%d:%s@deepcopy-of-%s" % (k, op["fn"], cur))
+                try:                 # move the copy elsewhere: the original must not follow
+                    Lc.costIV(list(th2) + x0b)
+                    Lc.jtj(list(th2))
+                except Exception as exc:
+                    tags.append("session:deepcopy-move-raises:" + type(exc).__name__)
+                hist = "after-deepcopy-moved-elsewhere"
+                tags.append("session:deepcopy")
+    except Exception as exc:
+        tags.append("session:aborted:%s" % type(exc).__name__)
+    tags.append("session:evals=%d" % nev)
+    # ---- kept results: nothing returned earlier may have been changed by a later call
+    for label, ref, cp in keep:
+        now = np.asarray(ref, float)
+        if now.shape != cp.shape or not np.array_equal(now, cp):
+            fam = "hessian" if "hessian" in label else "jtj"
+            report("an array returned by an earlier %s call was changed by a later call (returned buffer is shared)" % fam,
+                   fam + ":returned-array-changed-by-later-call", label + " : " + (worst(now, cp) if now.shape == cp.shape else "shape changed"))
+            break
+    # ---- the caller's own arrays
+    for name, (objv, cp) in cx["given"].items():
+        if not np.array_equal(np.array(objv, dtype=float), cp):
+            tags.append("input-modified:" + name)         # side effect: a tag (every judged value above was checked on its own)
+
+
 def run_case(case):
     tags, mism, viol = [], [], []
     states, params = case["states"], case["params"]
@@ -337,15 +589,72 @@ def run_case(case):
              "weights:" + case.get("wkind", "?"),
              "target:" + ("all" if tgt is None else "subset")]
 
-    def flow(th_t):
-        th = theta.copy(); th[tidx] = th_t
-        model.parameters = list(th)
-        return ref_solve(lambda t, y: np.asarray(model.ode(y, t), float).ravel(), x0, 0.0, ts)
+    sess = case.get("session") or {}
+    ops = sess.get("ops", [])
+    forms = sess.get("forms", {})
+
+    def make_oracle(x0_, theta_full, need_H, y_=None):
+        """the direct oracle for the state (initial state x0_, full parameter vector theta_full): reference solution, finite-
+        difference sensitivities of reference solutions, J'J, gradient, weighted residuals and (need_H) the central-difference
+        Hessian of the reference gradient.  None when a reference integration fails.  Leaves model.parameters changed."""
+        x0_ = np.array(x0_, float); theta_full = np.array(theta_full, float)
+
+        def flow(th_t):
+            th = theta_full.copy(); th[tidx] = th_t
+            model.parameters = list(th)
+            return ref_solve(lambda t, yy: np.asarray(model.ode(yy, t), float).ravel(), x0_, 0.0, ts)
+
+        th_t = theta_full[tidx].copy()
+        sol = flow(th_t)
+        if sol is None:
+            return None
+        yy = y_ if y_ is not None else None
+
+        def sens_fd(v0):
+            """S[i, state, target] by Richardson central differences of reference solutions"""
+            S = np.zeros((n, nS, nT))
+            for k in range(nT):
+                def g(v):
+                    r_ = flow(v)
+                    if r_ is None:
+                        raise FloatingPointError
+                    return r_
+                S[:, :, k] = richardson_dir(g, v0, k, 1e-3 * max(0.1, abs(v0[k])))
+            return S
+
+        o = {"flow": flow, "sol": sol, "sens_fd": sens_fd, "x0": x0_, "theta": theta_full}
+
+        def finish(y):
+            def grad_ref(v0):
+                xr = flow(v0)
+                if xr is None:
+                    raise FloatingPointError
+                S = sens_fd(v0)
+                res = (y - xr[:, oidx]) * W
+                return np.einsum("iq,iqk->k", -2.0 * res * W, S[:, oidx, :])
+            try:
+                S0 = sens_fd(th_t)
+                H = None
+                if need_H:
+                    H = np.zeros((nT, nT))
+                    for b in range(nT):
+                        H[:, b] = richardson_dir(grad_ref, th_t, b, 2e-3 * max(0.1, abs(th_t[b])))
+                    H = 0.5 * (H + H.T)
+            except FloatingPointError:
+                return None
+            Sw = S0[:, oidx, :] * W[:, :, None]
+            res = (y - sol[:, oidx]) * W
+            o.update(S0=S0, H=H, JTJ=np.einsum("iqa,iqb->ab", Sw, Sw), resid=res,
+                     grad=np.einsum("iq,iqk->k", -2.0 * res * W, S0[:, oidx, :]), cost=float(np.sum(res ** 2)))
+            return o
+        o["finish"] = finish
+        return o if yy is None else finish(yy)
 
     th_t0 = theta[tidx].copy()
-    base = flow(th_t0)
-    if base is None:
+    ob = make_oracle(x0, theta, True)
+    if ob is None:
         return {"nontrivial": False, "mismatches": mism, "violations": viol, "tags": tags + ["integration-skipped"]}
+    base = ob["sol"]
     rs = np.random.default_rng(case["noise_seed"])
     y = base[:, oidx] * (1.0 + 0.3 * rs.standard_normal((n, p_))) + 0.1 * rs.standard_normal((n, p_))
     W = np.ones((n, p_))
@@ -353,61 +662,116 @@ def run_case(case):
     if wraw is not None:
         wa = np.asarray(wraw, float)
         W = W * (wa.reshape(n, p_) if wa.size == n * p_ and wa.ndim >= 1 and (wa.ndim == 2 or p_ == 1) else wa)
-
-    def sens_fd(th_t):
-        """S[i, state, target] by Richardson central differences of reference solutions; None on failure"""
-        S = np.zeros((n, nS, nT))
-        for k in range(nT):
-            def g(v):
-                r_ = flow(v)
-                if r_ is None:
-                    raise FloatingPointError
-                return r_
-            S[:, :, k] = richardson_dir(g, th_t, k, 1e-3 * max(0.1, abs(th_t[k])))
-        return S
-
-    def grad_ref(th_t):
-        xr = flow(th_t)
-        if xr is None:
-            raise FloatingPointError
-        S = sens_fd(th_t)
-        res = (y - xr[:, oidx]) * W
-        return np.einsum("iq,iqk->k", -2.0 * res * W, S[:, oidx, :])
-
-    try:
-        S0 = sens_fd(th_t0)
-        H_true = np.zeros((nT, nT))
-        for b in range(nT):
-            H_true[:, b] = richardson_dir(grad_ref, th_t0, b, 2e-3 * max(0.1, abs(th_t0[b])))
-    except FloatingPointError:
+    if ob["finish"](y) is None:
         return {"nontrivial": False, "mismatches": mism, "violations": viol, "tags": tags + ["integration-skipped"]}
-    H_true = 0.5 * (H_true + H_true.T)
-    Sw = S0[:, oidx, :] * W[:, :, None]
-    JTJ_true = np.einsum("iqa,iqb->ab", Sw, Sw)
+    S0, H_true, JTJ_true = ob["S0"], ob["H"], ob["JTJ"]
+    # the alternative state the session visits (another initial state, or another value of a non-target parameter)
+    oalt = None
+    if ops:
+        alt_needs_H, cur = False, "base"
+        for o_ in ops:
+            if o_["op"] in ("iv", "ode_param"):
+                cur = o_["to"]
+            elif o_["op"] == "eval" and cur == "alt" and o_["fn"].startswith("hessian"):
+                alt_needs_H = True
+        th_alt = theta.copy()
+        if sess["alt"] == "nontarget":
+            th_alt[params.index(sess["ntp"]["name"])] = sess["ntp"]["value"]
+        oalt = make_oracle(sess["x0b"] if sess["alt"] == "x0" else x0, th_alt, alt_needs_H, y_=y)
+        if oalt is None:
+            tags.append("session:alt-state-integration-skipped")
     # what the code computes today when the selection is sorted (classification only)
     so, st = sorted(oidx), sorted(tidx)
     Sw_sorted = S0[:, so, :][:, :, [tidx.index(k) for k in st]] * W[:, :, None]
     JTJ_sorted = np.einsum("iqa,iqb->ab", Sw_sorted, Sw_sorted)
 
-    # ---- the real loss object
+    # ---- the real loss object (constructor arguments in the forms the case names; the caller's objects are kept)
     model.parameters = list(theta)
     from pygom import SquareLoss
+
+    def as_form(v, form):
+        if form == "tuple":
+            return tuple(v)
+        if form == "array":
+            return np.array(v, dtype=float)
+        if form == "int_list":
+            return [int(a) for a in v]
+        if form == "int_array":
+            return np.array([int(a) for a in v], dtype=int)
+        return list(v)
+
+    wform = forms.get("weights", "asis")
+    warg = wraw
+    if wraw is not None and not np.isscalar(wraw):
+        if wform == "array":
+            warg = np.array(wraw, dtype=float)
+        elif wform == "tuple":
+            warg = tuple(tuple(r_) if isinstance(r_, list) else r_ for r_ in wraw)
+        elif wform == "int" and all(float(v).is_integer() for v in np.asarray(wraw, float).ravel()):
+            warg = np.array(wraw, dtype=int)
+            tags.append("form:weights=int-array")
+    elif wraw is not None and wform == "int" and float(wraw).is_integer():
+        warg = int(wraw)
+        tags.append("form:weights=int-scalar")
+    x0arg = as_form(x0, forms.get("x0", "list"))
+    yarr = y if p_ > 1 else y.ravel()
+    yarg = yarr.tolist() if forms.get("y") == "list" else yarr.copy()
+    targ = ts.tolist() if forms.get("t") == "list" else ts.copy()
+    th0arg = as_form(list(th_t0) if tgt is not None else list(theta), forms.get("theta", "list"))
+    tags += ["form:x0=" + forms.get("x0", "list"), "form:theta0=" + forms.get("theta", "list")]
+    given = {"x0": (x0arg, np.array(x0arg, dtype=float)), "y": (yarg, np.array(yarg, dtype=float)), "t": (targ, np.array(targ, dtype=float)),
+             "theta0": (th0arg, np.array(th0arg, dtype=float))}
+    if warg is not None and not np.isscalar(warg):
+        given["weights"] = (warg, np.array(warg, dtype=float))
     try:
         kw = {}
         if tgt is not None:
             kw["target_param"] = list(tgt)
-        yarg = y if p_ > 1 else y.ravel()
-        L = SquareLoss(list(th_t0) if tgt is not None else list(theta), model, list(x0), 0.0, ts, yarg, list(obs) if p_ > 1 else obs[0],
-                       state_weight=wraw, **kw)
+        L = SquareLoss(th0arg, model, x0arg, 0.0, targ, yarg, list(obs) if p_ > 1 else obs[0], state_weight=warg, **kw)
     except Exception as exc:
         viol.append({"what": "SquareLoss(...) raised %s: %s" % (type(exc).__name__, str(exc)[:160]), "signature": _sig("loss-constructor:raises", nS),
-                     "detail": json.dumps({k: case[k] for k in ("obs", "target", "weights")})})
+                     "detail": json.dumps({k: case[k] for k in ("obs", "target", "weights")}) + " forms=%s" % forms})
         return {"nontrivial": False, "mismatches": mism, "violations": viol, "tags": tags}
     if not close_arr(np.asarray(L._weight, float).reshape(n, p_), W, 1e-12, 0):
         mism.append({"what": "weights", "detail": "harness W differs from loss._weight"})
     th_arg = list(th_t0)
 
+    def check_output(fn, out_, orc, where, tolJ_, tolH_):
+        """the entries of a full_output dictionary that the docstrings name, each against its own reference (direct oracle)"""
+        scale_g = float(np.max(np.abs(orc["grad"]))) + 1e-300
+        refs = {"grad": (orc["grad"], 1e-5 * scale_g + 1e-6 * (1.0 + orc["cost"])),
+                "resid": (orc["resid"] if p_ > 1 else orc["resid"].ravel(), 1e-7 * (1.0 + float(np.max(np.abs(orc["sol"]))))),
+                "JTJ": (orc["JTJ"], tolJ_)}
+        if fn == "hessian" and orc.get("H") is not None:
+            full = np.asarray(out_.get("H", np.zeros((0, 0))), float)
+            if full.shape == (nP, nP):
+                got = full[tidx][:, tidx]
+                if not close_arr(got, orc["H"] - 2 * orc["JTJ"], 0, tolH_):
+                    viol.append({"what": "hessian(full_output=True)['H'] (rows/columns of the target parameters) is not the second-order part "
+                                         "H_true - 2 J'J of the Hessian of the cost", "signature": "hessian:output-dict:H" + where,
+                                 "detail": worst(got, orc["H"] - 2 * orc["JTJ"])})
+            else:
+                viol.append({"what": "hessian(full_output=True)['H'] has shape %s" % (full.shape,), "signature": "hessian:output-dict:H:shape", "detail": ""})
+        # sensitivities of the observed states in the target parameters, in the documented parameter-major layout
+        Sref = np.concatenate([orc["S0"][:, oidx, k] for k in range(nT)], axis=1)
+        sens = np.asarray(out_.get("sens", np.zeros((0, 0))), float)
+        if fn == "jtj" and sens.ndim == 2 and sens.shape[1] == nS + nS * nP:       # jac's dictionary: the whole integrated array
+            sens = sens[:, [i + (a + 1) * nS for a in tidx for i in oidx]]
+        refs["sens"] = (Sref, 1e-5 * (float(np.max(np.abs(Sref))) + 1e-300) + 1e-9)
+        for key, (ref, tol_) in refs.items():
+            if key == "JTJ" and fn == "jtj":
+                continue
+            got = sens if key == "sens" else out_.get(key)
+            if got is None:
+                viol.append({"what": "%s(full_output=True) has no entry %r" % (fn, key), "signature": "%s:output-dict:%s:missing" % (fn, key), "detail": str(sorted(out_))})
+            elif np.asarray(got, float).size != ref.size or not close_arr(np.asarray(got, float).reshape(ref.shape), ref, 0, tol_):
+                viol.append({"what": "%s(full_output=True)[%r] differs from its reference (direct oracle: reference solutions and their finite-difference "
+                                     "sensitivities)" % (fn, key), "signature": "%s:output-dict:%s%s" % (fn, key, where),
+                             "detail": worst(np.asarray(got, float).reshape(ref.shape) if np.asarray(got, float).size == ref.size else np.asarray(got, float), ref)
+                             + " weights=%s" % case.get("wkind")})
+
     # ---- jtj
+    nviol_before_jtj = len(viol)
     scaleJ = float(np.max(np.abs(JTJ_true))) + 1e-300
     tolJ = 1e-5 * scaleJ + 1e-10
     cost0 = float(np.sum(((y - base[:, oidx]) * W) ** 2))
@@ -441,7 +805,9 @@ def run_case(case):
             lj = to_float(layout("sensToJtj", numS=p_, w=fmat(W.tolist()), sens=fmat(sens_sel.tolist())))
             if not close_arr(Jp, lj.reshape(nT, nT), 1e-9, 1e-9 * scaleJ + 1e-14):
                 mism.append({"what": "sens_to_jtj vs Lean sensToJtj", "detail": worst(Jp, lj.reshape(nT, nT))})
+            check_output("jtj", out, ob, "", tolJ, None)
 
+    first_ok = {"jtj": len(viol) == nviol_before_jtj}
     # ---- forward-forward right-hand side, pointwise
     try:
         sym = SymOracle(model)
@@ -502,6 +868,7 @@ def run_case(case):
 
     # ---- hessian
     nontriv_h = False
+    nviol_before_h = len(viol)
     model.parameters = list(theta)
     try:
         Hp = np.asarray(L.hessian(th_arg), float)
@@ -532,8 +899,22 @@ def run_case(case):
             else:
                 tags.append("hessian-assembly:agrees")
         except Exception as exc:
+            Hf = o2 = None
             mism.append({"what": "hessian(full_output=True) raised", "detail": "%s: %s" % (type(exc).__name__, str(exc)[:200])})
         tolH = 1e-3 * scaleH + 1e-4 * (1.0 + cost0)
+        if Hf is not None:
+            # DIRECT ORACLE on the full_output form (the one confidence_interval uses): same reference as the plain call
+            if Hf.shape != (nT, nT) or not close_arr(Hf, H_true, 0, tolH):
+                same = Hf.shape == Hp.shape and close_arr(Hf, Hp, 0, 1e-9 * scaleH + 1e-12)
+                if not same or close_arr(Hp, H_true, 0, tolH):
+                    viol.append({"what": "hessian(theta, full_output=True)[0] != second derivatives of the square-loss cost (central differences of the "
+                                         "reference gradient)" + ("" if same else "; it also differs from hessian(theta)"),
+                                 "signature": _sig("hessian:full-output:value", nS),
+                                 "detail": (worst(Hf, H_true) if Hf.shape == (nT, nT) else "shape %s" % (Hf.shape,)) + " weights=%s obs=%s target=%s" % (case.get("wkind"), obs, tgt)})
+            else:
+                tags.append("hessian-full-output:agrees")
+            if close_arr(Hp, H_true, 0, tolH):      # otherwise the plain call is already reported below, with its classification
+                check_output("hessian", o2, ob, "", tolJ, tolH)
         second_true = H_true - 2 * JTJ_true
         nontriv_h = bool(np.max(np.abs(second_true)) > 1e-2 * scaleH and scaleH > 1e-2 * (1.0 + cost0))
         if not close_arr(Hp, H_true, 0, tolH):
@@ -579,6 +960,50 @@ def run_case(case):
                              "detail": worst(Hp, H_true) + " obs=%s target=%s weights=%s terms=%s" % (obs, tgt, case.get("wkind"), sorted(terms))})
         else:
             tags.append("hessian:agrees" + (":second-order-part-significant" if nontriv_h else ""))
+
+    first_ok["hessian"] = len(viol) == nviol_before_h
+    # ---- the public accumulators handed the caller's OWN sensitivity array, twice (family 1: arguments must come back
+    # unchanged; the Lean `sensToJtj` is a function of (weights, sens) and has nothing to overwrite)
+    if first_ok["jtj"] and Jp is not None and isinstance(out.get("sens"), np.ndarray):
+        idx = L._getTargetParamSensIndex()
+        dl_ = np.asarray(out["diff_loss"], float)
+        tolg = 1e-5 * (float(np.max(np.abs(ob["grad"]))) + 1e-300) + 1e-6 * (1.0 + ob["cost"])
+        for nm, f_, ref_, tol_ in (("sens_to_jtj", lambda S_: L.sens_to_jtj(S_), JTJ_true, tolJ),
+                                   ("sens_to_grad", lambda S_: L.sens_to_grad(S_, dl_), ob["grad"], tolg)):
+            S_ = np.ascontiguousarray(np.asarray(out["sens"], float)[:, idx])
+            Sc_ = S_.copy()
+            try:
+                A_ = np.asarray(f_(S_), float); changed = not np.array_equal(S_, Sc_); B_ = np.asarray(f_(S_), float)
+            except Exception as exc:
+                viol.append({"what": "%s raised %s: %s" % (nm, type(exc).__name__, str(exc)[:160]), "signature": nm + ":raises", "detail": ""})
+                continue
+            # "do not demand more than the property states": a VIOLATION only when the function the property names
+            # (mechanism anchor BaseLoss.sens_to_jtj) RETURNS A WRONG VALUE; a changed argument alone, and everything about
+            # sens_to_grad (C07's function), is a tag
+            wrong1 = A_.shape != ref_.shape or not close_arr(A_, ref_, 0, tol_)
+            wrong2 = B_.shape != ref_.shape or not close_arr(B_, ref_, 0, tol_)
+            if changed:
+                tags.append("input-modified:%s-argument" % nm)
+            if nm == "sens_to_jtj" and wrong1:
+                viol.append({"what": "sens_to_jtj(sens) of the integrated sensitivities differs from the direct oracle", "signature": nm + ":value",
+                             "detail": worst(A_, ref_) if A_.shape == ref_.shape else "shape %s" % (A_.shape,)})
+            elif nm == "sens_to_jtj" and wrong2:
+                viol.append({"what": "sens_to_jtj(sens) called a second time with the same caller-owned array returns another, wrong value: the first "
+                                     "call multiplied the array by the weights IN PLACE (weights applied twice)",
+                             "signature": nm + ":argument-modified", "detail": "second call: " + worst(B_, ref_) + " weights=%s" % case.get("wkind")})
+            elif wrong1 or wrong2:
+                tags.append("%s:wrong-value-on-%s-call(not judged here)" % (nm, "first" if wrong1 else "second"))
+            elif not changed:
+                tags.append(nm + ":argument-unchanged")
+
+    # ---- the session: call histories on the one live object, kept results, forms of theta (see the module docstring).
+    # Each evaluation is judged against the direct oracle of the state that is CURRENT when it is made; a family
+    # (jtj / hessian) is judged here only when its very first evaluation above agreed with the oracle, so that what is
+    # reported is what depends on history or form.
+    if ops:
+        _run_session(case, sess, ops, L, model, SquareLoss, dict(ob=ob, oalt=oalt, first_ok=first_ok, th_arg=th_arg, theta=theta, x0=x0, ts=ts,
+                                                                 yarr=yarr, obs=obs, tgt=tgt, tnames=tnames, wraw=wraw, p_=p_, nT=nT, nS=nS,
+                                                                 check_output=check_output, given=given), viol, tags)
     rank = int(np.linalg.matrix_rank(JTJ_true)) if np.all(np.isfinite(JTJ_true)) else 0
     return {"nontrivial": bool(rank >= 1 and nontriv_h), "mismatches": mism, "violations": viol, "tags": tags,
             "sample": {k: case[k] for k in ("kind", "states", "params", "theta", "x0", "obs", "target", "weights", "n", "T")}}
